@@ -56,6 +56,15 @@ class Leaf:
                     if k in ('attrname', 'tagname', 'name'):
                         extra.append(c == 45)       # '-' inside JSX identifiers
                 cs.append(z3.Or(alpha, *extra))
+            elif k == 'uname':
+                # a JSX / JS identifier part that may be non-ASCII: the ASCII name class or one of the exact ID_Start / ID_Continue
+                # representatives (1-, 2-, 3- and 4-byte UTF-8 encodings)
+                from .models import ID_REPS
+                alpha = z3.Or(z3.And(z3.UGE(c, 65), z3.ULE(c, 90)), z3.And(z3.UGE(c, 97), z3.ULE(c, 122)))
+                extra = [c == 95, c == 36] + [c == r for r in ID_REPS['start']]
+                if i > 0:
+                    extra += [z3.And(z3.UGE(c, 48), z3.ULE(c, 57)), c == 45] + [c == r for r in ID_REPS['continue']]
+                cs.append(z3.Or(alpha, *extra))
             elif k == 'text':
                 cs.append(z3.And(z3.ULE(c, 0x10ffff), z3.Or(z3.ULT(c, 0xd800), z3.UGT(c, 0xdfff))))
             elif k == 'textent':
